@@ -47,6 +47,8 @@ struct Obs {
     vj: Option<String>,
     chain: Option<Vec<String>>,
     tid: &'static str,
+    /// the `OwnedValue` / shared copy of the value, formatted ITSELF (not through `by_ref()`), displays like the value
+    owned_disp_same: bool,
 }
 
 /// Everything the property lets a consumer ask of the property `key` of `p` — through the public `Props` API.
@@ -88,6 +90,12 @@ fn observe<P: Props + ?Sized>(p: &P, key: &str) -> Option<Obs> {
         vj: sval_json::stream_to_string(&v).ok(),
         chain,
         tid,
+        // (not promised for error values: value_bag buffers an error as its own Display text, without the root cause
+        // that `Value`'s Display appends — the property lists numbers, booleans, strings and structured values)
+        owned_disp_same: v.to_borrowed_error().is_some() || {
+            let d = v.to_string();
+            v.to_owned().to_string() == d && v.to_shared().to_string() == d && v.to_owned().by_ref().to_string() == d
+        },
     })
 }
 
@@ -1075,8 +1083,9 @@ impl Build for ChainErr {
         Some(e)
     }
     fn gen(rng: &mut Rng, _: usize) -> Sexp {
-        let n = 1 + rng.below(4) as usize;
-        let msgs: Vec<String> = (0..n).map(|_| gen_string(rng)).collect();
+        // mostly short chains; one in eight is long (past any small fixed bound on how far sources are followed)
+        let n = if rng.chance(1, 8) { 15 + rng.below(30) as usize } else { 1 + rng.below(4) as usize };
+        let msgs: Vec<String> = (0..n).map(|i| if n > 8 { format!("e{}", i) } else { gen_string(rng) }).collect();
         ChainErr::of(&msgs).unwrap().sexp()
     }
     fn orig(&self) -> Orig {
@@ -1595,7 +1604,11 @@ fn finish<P: Props>(props: &P, key: &'static str, attr: &str, opt: &str, path: P
     let captured_error = direct.as_ref().map_or(false, |d| d.chain.is_some());
     let sh = Shown { pulls: !structured || orig.leaf, fmt: !structured, dbg: !captured_error };
     let out = render(&got, &sh);
-    match oracle(key, attr, opt, path, orig, &direct, &got) {
+    let verdict = oracle(key, attr, opt, path, orig, &direct, &got).and_then(|()| match &got {
+        Some(o) if !o.owned_disp_same => Err("owned-copy-displays-differently".to_string()),
+        _ => Ok(()),
+    });
+    match verdict {
         Ok(()) => out,
         Err(why) => format!("{}\tFAIL:{}", out, why),
     }
